@@ -84,7 +84,7 @@ def gen_case(rng, tier_thorough=False, kind=None, big=False):
     ncol = rng.choice([1, 1, 2, 2, 3])
     cand = vnames + pnames
     cols = []
-    if ia_dep_vars and rng.random() < 0.8:
+    if ia_dep_vars and rng.random() < 0.65:
         cols.append(rng.choice(ia_dep_vars))
     while len(cols) < ncol and len(cols) < len(cand):
         c = rng.choice(cand)
@@ -121,7 +121,7 @@ def gen_case(rng, tier_thorough=False, kind=None, big=False):
         case["proto"] = proto
         case["steps"] = rng.choice([1, 2, 2, 3, 4])
     # integrator: the toy Euler (also modelled in Lean), sometimes with failing rows; or the shipped default
-    if rng.random() < 0.75:
+    if rng.random() < 0.8:
         case["cfg"] = {"nss": rng.randint(1, 4), "h": rng.choice(["1/4", "1/8", "1/2"]), "fail": []}
         r = rng.random()
         nfail = 0 if r < 0.45 else (nrows if r > 0.92 else rng.randint(1, max(1, nrows // 2)))
@@ -130,6 +130,24 @@ def gen_case(rng, tier_thorough=False, kind=None, big=False):
         case["cfg"] = None
         case["fail_rows"] = []
     case["order"] = [rng.randrange(nrows) for _ in range(rng.randint(0, nrows + 1))]
+    return case
+
+
+def gen_mcscan(rng):
+    case = gen_case(rng, kind="ss")
+    case["kind"] = "mcscan"
+    case["rows"] = [[i, r] for i, (_, r) in enumerate(case["rows"][:3])]
+    case["order"] = []
+    case["fail_rows"] = []
+    vnames = [k for k, _ in case["content"]["vars"]]
+    pnames = [k for k, v in case["content"]["pars"]]
+    ia_dep = sorted({a for _, v in case["content"]["pars"] if "ia" in v for a in v["ia"]["args"] if a in vnames})
+    cols = [rng.choice(ia_dep)] if ia_dep and rng.random() < 0.7 else [rng.choice(vnames + pnames)]
+    if rng.random() < 0.4:
+        extra = rng.choice(vnames + pnames)
+        if extra not in cols:
+            cols.append(extra)
+    case["inner"] = {"cols": cols, "rows": [[rng.choice(VALS) for _ in cols] for _ in range(rng.randint(2, 4))]}
     return case
 
 
@@ -213,6 +231,8 @@ def run_real(case, mode):
     import pandas as pd
     from mxlpy import mc, scan
 
+    if case["kind"] == "mcscan":
+        return run_real_mcscan(case, mode)
     try:
         m = L.build_model(case["content"])
         varnames = set(m.get_variable_names())
@@ -259,6 +279,62 @@ def run_real(case, mode):
         return {"err": [type(e).__name__]}
 
 
+def _inner_table(case):
+    import pandas as pd
+
+    return pd.DataFrame([[L.fl(v) for v in r] for r in case["inner"]["rows"]], columns=case["inner"]["cols"])
+
+
+def _rows_of(df):
+    """DataFrame -> [[index tuple as floats, sorted [col, value]]] in row order"""
+    out = []
+    for i in range(len(df)):
+        idx = df.index[i]
+        key = [float(x) for x in (idx if isinstance(idx, tuple) else (idx,))]
+        out.append([key, sorted([str(c), float(df.iloc[i][c])] for c in df.columns)])
+    return out
+
+
+def run_real_mcscan(case, mode):
+    """mc.scan_steady_state: every Monte-Carlo row runs a (sequential) inner scan in a pool process"""
+    from mxlpy import mc
+
+    try:
+        m = L.build_model(case["content"])
+        y0 = None if case["y0"] is None else {k: L.fl(v) for k, v in case["y0"]}
+        with L.quiet():
+            res = mc.scan_steady_state(m, to_scan=_inner_table(case), mc_to_scan=_table(case), y0=y0,
+                                       max_workers=mode[1], integrator=L.make_integ(case["cfg"]))
+        return {"vars": _rows_of(res.variables), "flux": _rows_of(res.fluxes), "caller": _state(m)}
+    except Exception as e:  # noqa: BLE001
+        return {"err": [type(e).__name__]}
+
+
+def run_oracle_mcscan(case):
+    from mxlpy import Simulator
+
+    try:
+        names = {k for k, _ in case["content"]["vars"]} | {k for k, _ in case["content"]["pars"]}
+        vs, fs = [], []
+        for i, (label, _) in enumerate(case["rows"]):
+            for inner in case["inner"]["rows"]:
+                kv = dict(row_values(case, i))
+                for c, v in zip(case["inner"]["cols"], inner):
+                    if c in names:
+                        kv[c] = v
+                m = L.build_model(L.with_values(case["content"], list(kv.items())))
+                r = Simulator(m, integrator=L.make_integ(case["cfg"])).simulate_to_steady_state().get_result()
+                if isinstance(r.value, Exception):
+                    return {"err": ["oracle: failing rows are not generated in this stratum"]}
+                key = [float(label)] + [L.fl(x) for x in inner]
+                vs.append([key, sorted([str(c), float(r.value.variables.iloc[-1][c])] for c in r.value.variables.columns)])
+                fs.append([key, sorted([str(c), float(r.value.fluxes.iloc[-1][c])] for c in r.value.fluxes.columns)])
+        mc_ = L.build_model(L.with_values(case["content"], case["y0"] or []))
+        return {"vars": vs, "flux": fs, "caller": _state(mc_)}
+    except Exception as e:  # noqa: BLE001
+        return {"err": [type(e).__name__]}  # an exception escapes the independent run: the scan must raise it too
+
+
 def _independent(case, i, cfg):
     """one separate simulation of a fresh model declared with row i's values"""
     import numpy as np
@@ -285,6 +361,8 @@ def run_oracle(case):
     import numpy as np
     import pandas as pd
 
+    if case["kind"] == "mcscan":
+        return run_oracle_mcscan(case)
     try:
         kind = case["kind"]
         nofail = None if case["cfg"] is None else dict(case["cfg"], fail=[])
@@ -321,7 +399,7 @@ def run_oracle(case):
         mc_ = L.build_model(L.with_values(case["content"], case["y0"] or []))
         return {"res": out, "caller": _state(mc_)}
     except Exception as e:  # noqa: BLE001
-        return {"err": ["oracle:" + type(e).__name__, str(e)[:200]]}
+        return {"err": [type(e).__name__]}  # an exception escapes the independent run: the scan must raise it too
 
 
 # --------------------------------------------------------------------------- Lean side
@@ -379,7 +457,10 @@ def canon_model(resp, template):
             return sorted([k, L.qf(v)] for k, v in j["ok"])
         return {"err": j["err"][0]}
 
-    return {"res": out, "caller": {"pars": st(ok["caller"]["pars"]), "init": st(ok["caller"]["init"])}}
+    res = {"res": out, "caller": {"pars": st(ok["caller"]["pars"]), "init": st(ok["caller"]["init"])}}
+    if not ok.get("grid_ok", True):
+        res["grid_ok"] = False  # the worker model's grid is not the *Index function the theorems talk about
+    return res
 
 
 def case_kind_ss(key):
@@ -400,6 +481,8 @@ def reduce_nan(obs):
 
 
 def modes_for(case, rng, thorough):
+    if case["kind"] == "mcscan":
+        return [["mc", w] for w in ((1, 2, 3, 16) if thorough else (rng.choice([1, 2]), rng.choice([3, 16])))]
     if thorough:
         return [["seq"], ["par", 1], ["par", 2], ["par", 3], ["par", 16], ["mc", 1], ["mc", 2], ["mc", 3], ["mc", 16]]
     ws = [1, 2, 3, 16]
@@ -429,7 +512,7 @@ def pool():
 
 def classify(case, mode, R, S):
     """which listed finding (if any) an R != S on this case can belong to"""
-    if "res" not in R or "res" not in S:
+    if "res" not in R or "res" not in S or case["kind"] == "mcscan":
         return None
     if R.get("caller") != S.get("caller"):
         return None
@@ -445,6 +528,8 @@ def classify(case, mode, R, S):
 
 def shape(case):
     c = case["content"]
+    if case["kind"] == "mcscan":
+        return f"mcscan-rows{len(case['rows'])}x{len(case['inner']['rows'])}-{'euler' if case['cfg'] else 'lsoda'}"
     ia = sum(1 for _, v in c["pars"] if "ia" in v)
     vs = {k for k, _ in c["vars"]}
     scan_var = any(col in vs for col in case["cols"])
@@ -454,7 +539,7 @@ def shape(case):
 
 
 def judge_case(ctx, case, modes, S, Rs, Ms):
-    nontrivial = "res" in S and len(S["res"]) > 0
+    nontrivial = ("res" in S and len(S["res"]) > 0) or "vars" in S
     ctx.count({k: v for k, v in case.items()}, shape(case), nontrivial)
     Sj = L.jnum(S)
     for mode, R, M in zip(modes, Rs, Ms):
@@ -479,7 +564,7 @@ def evaluate(ctx, cases_modes):
     reqs, where = [], []
     for ci, ((case, modes), (S, Rs)) in enumerate(zip(jobs, outs)):
         for mi, mode in enumerate(modes):
-            if ctx.driver_ok and case["cfg"] is not None and "res" in S:
+            if ctx.driver_ok and case["cfg"] is not None and "res" in S and case["kind"] != "mcscan":
                 reqs.append(model_request(case, mode, rng_seed=ci * 31 + mi))
                 where.append((ci, mi))
     answers = driver.call_batch(reqs) if reqs else []
@@ -519,7 +604,7 @@ def run(ctx):
     while len(cases) < n and tries < 20 * n:
         tries += 1
         big = (len(cases) % 15 == 14)
-        case = gen_case(rng, thorough, big=big)
+        case = gen_mcscan(rng) if len(cases) % 9 == 8 else gen_case(rng, thorough, big=big)
         if finalize(case):
             cases.append(case)
         else:
